@@ -45,7 +45,12 @@ macro_rules! impl_ranges {
 
         impl<Idx: MaxSizeOf> MaxSizeOf for core::ops::$ty<Idx> {
             fn max_size_of() -> usize {
-                core::mem::size_of::<Self>()
+                // The size might be zero or not a power of two (e.g., for a
+                // three-byte index type), which is not a valid alignment unit.
+                core::cmp::max(
+                    core::mem::align_of::<Self>(),
+                    core::mem::size_of::<Self>().next_power_of_two(),
+                )
             }
         }
     };
